@@ -31,6 +31,9 @@ def _ref_symvar(n):
     # fb f1 declares nm0,nm1 and uses nm2 ; fb f2 declares nm3 and uses nm4.  P0015 iff a used name is not declared in its own POU (or is the POU name)
     bad = (n[2] not in (n[0], n[1], 'f1')) or (n[4] not in (n[3], 'f2'))
     return {'P0015'} if bad else set()
+def _ref_symvar_enum(n):
+    # fb f1 declares an enum-typed variable cur and nm0; after `cur := green` the condition of an IF uses nm1
+    return {'P0015'} if n[1] not in (n[0], 'cur', 'f1') else set()
 def _ref_task(n): return {'P0011'} if n[1] != n[0] else set()
 
 RULES = {
@@ -40,6 +43,8 @@ RULES = {
         text='TYPE\n  clr : (nm0, nm1, nm2) := nm0;\nEND_TYPE\n'),
     'use_declared_symbolic_var': dict(mod='rule_use_declared_symbolic_var', k=5, alpha=['a', 'b', 'c'], ref=_ref_symvar,
         text='FUNCTION_BLOCK f1\nVAR\n  nm0 : INT;\n  nm1 : INT;\nEND_VAR\n  nm2 := 1;\nEND_FUNCTION_BLOCK\nFUNCTION_BLOCK f2\nVAR\n  nm3 : INT;\nEND_VAR\n  nm4 := 2;\nEND_FUNCTION_BLOCK\n'),
+    'use_declared_symbolic_var_after_enum_assignment': dict(mod='rule_use_declared_symbolic_var', k=2, alpha=['a', 'b'], ref=_ref_symvar_enum,
+        text='TYPE\n  color : (red, green) := red;\nEND_TYPE\nFUNCTION_BLOCK f1\nVAR\n  cur : color := red;\n  nm0 : BOOL;\nEND_VAR\n  cur := green;\n  IF nm1 THEN\n    cur := red;\n  END_IF;\nEND_FUNCTION_BLOCK\n'),
     'program_task_definition_exists': dict(mod='rule_program_task_definition_exists', k=2, alpha=['a', 'b'], ref=_ref_task,
         text='CONFIGURATION cfg\n  RESOURCE res ON PLC\n    TASK nm0(INTERVAL := T#100ms, PRIORITY := 1);\n    PROGRAM inst WITH nm1 : prog;\n  END_RESOURCE\nEND_CONFIGURATION\nPROGRAM prog\nVAR\n  x : INT;\nEND_VAR\nEND_PROGRAM\n'),
 }
@@ -69,27 +74,30 @@ def _rule_job(job):
         part.paths += 1
         if pr.inconclusive: part.inconc(pr.inconclusive); return
         s = z3.Solver(); s.add(*pr.pc)
-        t = time.time(); r = s.check(); part.solver_s += time.time() - t; part.queries += 1
-        if r != z3.sat: return
-        m = s.model(); part.nontrivial += 1
-        names = []
-        for i in range(spec['k']):
-            v, ids = sym[i]; val = m.eval(v, True).as_long(); names.append([n for n in spec['alpha'] if ids[n].as_long() == val][0])
-        src = _subst_text(spec['text'], names); want = spec['ref'](names)
-        if pr.panic:
-            part.add('C02/K1/%s/panic' % rname, 'rule panics: %s' % pr.panic.msg, {'source': src}, ('rule', (src, sorted(want), rname))); return
+        part.nontrivial += 1
         res = pr.result; got = set()
-        if res.disc == 1:
+        if not pr.panic and res.disc == 1:
             for d in res.f[0].items:
                 c = M.deref(M.deref(d).f[0]); got.add(c.conc() if isinstance(c, Str) else '?')
-        got = {re.sub(r'^code:', '', g) for g in got}
-        got = {_code_of(P, g) for g in got}
-        if got != want:
-            kind = 'missed' if want - got else 'spurious'
-            part.add('C02/K1/%s/%s' % (rname, kind), 'rule %s: names %s -> reported %s, documented rule requires %s' % (rname, names, sorted(got) or 'nothing', sorted(want) or 'nothing'),
-                     {'names': names, 'source': src, 'got': sorted(got), 'want': sorted(want)}, ('rule', (src, sorted(want), rname)))
-        elif len(part.validate) < 2: part.validate.append(('rule', (src, sorted(want), rname)))
-        if len(part.samples) < 1: part.samples.append({'rule': rname, 'names': names, 'reported': sorted(got)})
+        got = {_code_of(P, re.sub(r'^code:', '', g)) for g in got}
+        # a path fixes only the name comparisons the code actually made: check every assignment of names consistent with the path
+        for names in itertools.product(spec['alpha'], repeat=spec['k']):
+            s.push()
+            for i, nm in enumerate(names):
+                v, ids = sym[i]; s.add(v == ids[nm])
+            t = time.time(); r = s.check(); part.solver_s += time.time() - t; part.queries += 1
+            s.pop()
+            if r != z3.sat: continue
+            names = list(names)
+            src = _subst_text(spec['text'], names); want = spec['ref'](names)
+            if pr.panic:
+                part.add('C02/K1/%s/panic' % rname, 'rule panics: %s' % pr.panic.msg, {'source': src}, ('rule', (src, sorted(want), rname))); break
+            if got != want:
+                kind = 'missed' if want - got else 'spurious'
+                part.add('C02/K1/%s/%s' % (rname, kind), 'rule %s: names %s -> reported %s, documented rule requires %s' % (rname, names, sorted(got) or 'nothing', sorted(want) or 'nothing'),
+                         {'names': names, 'source': src, 'got': sorted(got), 'want': sorted(want)}, ('rule', (src, sorted(want), rname)))
+            elif len(part.validate) < 2: part.validate.append(('rule', (src, sorted(want), rname)))
+            if len(part.samples) < 1: part.samples.append({'rule': rname, 'names': names, 'reported': sorted(got)})
     M.explore(entry, on_path)
     part.queries += M.stats['smt']; part.encoded = set(M.encoded); part.models = set(M.models_used)
     return part
@@ -122,7 +130,7 @@ def _replay_rule_one(ctx, src, want, rname):
         if 'panic' in r: return True, r
         if 'parse_error' in r: return None, r
         codes = set(d['code'] for d in r.get('diagnostics', []))
-        rule_codes = {'struct_element_unique_names': {'P0003'}, 'enumeration_values_unique': {'P0005'}, 'use_declared_symbolic_var': {'P0015'}, 'program_task_definition_exists': {'P0011'}}[rname]
+        rule_codes = {'struct_element_unique_names': {'P0003'}, 'enumeration_values_unique': {'P0005'}, 'use_declared_symbolic_var': {'P0015'}, 'use_declared_symbolic_var_after_enum_assignment': {'P0015'}, 'program_task_definition_exists': {'P0011'}}[rname]
         return (codes & rule_codes) != set(want), {'source': src, 'codes': sorted(codes), 'expected_rule_codes': want}
 
 @kernel('K1 rules.decision_vs_reference')
